@@ -106,6 +106,10 @@ def render_num(rng, v, allow_exotic=True):
     return str(v)
 
 
+RECORD_WORDS = ['oid', 'oid', 'oid', 'oid', 'name', 'class', 'syntax', 'type', 'default', 'value', 'status', 'module', 'object', 'format', 'enumeration', 'bits',
+                'range', 'size', 'constraints', 'min', 'max', 'maxaccess', 'nodetype', 'indices', 'objects', 'units']
+
+
 def gen_syntax(rng, types, depth=0):
     """returns a syntax dict: base type name + optional refinement"""
     r = rng.random()
@@ -117,6 +121,9 @@ def gen_syntax(rng, types, depth=0):
     if base == 'INTEGER' and rng.random() < 0.6:
         s['enum'] = [(rng.choice(['up', 'down', 'testing', 'unknown', 'other', 'ok', 'failed']) + str(i), v)
                      for i, v in enumerate(sorted(rng.sample(range(-3, 40), rng.randint(1, 5))))]
+        if rng.random() < 0.15:
+            # a label spelled like a key of the records the code generators pass around
+            s['enum'][0] = (rng.choice(RECORD_WORDS), s['enum'][0][1])
     elif base in INT_TYPES and base not in ('Counter32', 'Counter64', 'TimeTicks') and rng.random() < 0.5:
         lo_ok = -2147483648 if base in ('Integer32', 'INTEGER') else 0
         hi_ok = 2147483647 if base in ('Integer32', 'INTEGER') else 4294967295
@@ -147,6 +154,8 @@ def gen_syntax(rng, types, depth=0):
     elif base == 'BITS':
         s['bits'] = [(rng.choice(['alpha', 'beta', 'gamma', 'delta']) + str(i), p)
                      for i, p in enumerate(rng.sample(range(0, 16), rng.randint(1, 4)))]
+        if rng.random() < 0.15:
+            s['bits'][0] = (rng.choice(RECORD_WORDS), s['bits'][0][1])
     return s
 
 
@@ -269,7 +278,9 @@ class SetGen:
                 if rng.random() < 0.1:
                     revs += [('201902300000Z', self.text()), ('201813010000Z', self.text())]     # no such dates: both stay, as the dummy date
                 revs.sort(reverse=True)
-                add({'kind': 'moduleIdentity', 'name': self.names.fresh(hyphen_ok=False), 'lastUpdated': '202001010000Z',
+                add({'kind': 'moduleIdentity', 'name': self.names.fresh(hyphen_ok=False),
+                     # (the clause takes any quoted string; a time stamp, usually)
+                     'lastUpdated': '202001010000Z' if rng.random() < 0.8 else rng.choice([stamp(), '2020\\0101', 'unknown\\', "it's 2020", '']),
                      'organization': self.text(), 'contact': self.text(), 'description': self.text(), 'revisions': revs,
                      'oidparts': parts}, oid)
             for _ in range(self.size):
@@ -536,7 +547,9 @@ class SetGen:
                 opts += [('str', ''), ('hexstr', '0ABCD'), ('hexstr', '000'), ('hexstr', '0'), ('binstr', '000000001'), ('binstr', '000011110000'),
                          ('binstr', '0'), ('hexstr', '00000'), ('binstr', '0000'),
                          # blanks are characters of a string value like any other
-                         ('str', ' padded '), ('str', ' '), ('str', 'trailing  '), ('str', '  leading')]
+                         ('str', ' padded '), ('str', ' '), ('str', 'trailing  '), ('str', '  leading'),
+                         # ... and so are backslashes and apostrophes
+                         ('str', 'C:\\new\\table'), ('str', 'ends\\'), ('str', "it's"), ('str', '\\x41\\u0041')]
             return rng.choice(opts)
         return None
 
